@@ -4,7 +4,8 @@ sys.monitoring (Python 3.12) LINE events are armed with set_local_events on exac
 objects of the package that contain a `while` statement, so neither Hypothesis, NumPy nor the
 harness is traced.  The callback counts executions of every `while` header line per function
 invocation (a PY_START event on the same code object resets that function's counters, the
-package has no recursion) and raises LoopBound *inside the monitored frame* when the active
+package has no recursion) and, for a `while` nested in another loop, per activation (each iteration
+of an enclosing for/while loop resets it) and raises LoopBound *inside the monitored frame* when the active
 bound is exceeded.  All other lines answer DISABLE, so the overhead is one event per line per
 guarded call.
 """
@@ -29,6 +30,7 @@ _state = {
     'peak': {},             # 'file:line' -> largest count seen in the current guarded call
     'hit': None,            # description of the site that tripped
     'lines': {},            # code -> frozenset(while header lines)
+    'resets': {},           # code -> {enclosing loop line: set(nested while lines)}
     'names': {},            # code -> 'file.py:func'
     'pkg_dir': None,
     'probes': {},           # code -> {line: name}   (branch-coverage probes, never raise)
@@ -52,6 +54,35 @@ def _while_lines_of(tree):
     return out
 
 
+def _counted_line(node):
+    return node.body[0].lineno if isinstance(node.test, ast.Constant) else node.lineno
+
+
+def _reset_points_of(tree):
+    """{line: set(counted lines of the `while` loops nested inside the loop that iterates at `line`)}.
+
+    A `while` loop nested in another loop (for or while) is counted per ACTIVATION: every iteration
+    of an enclosing loop - the `for` header line, or the counted line of an enclosing `while` -
+    resets the counters of the loops nested in it, so that the bound limits each loop by itself and
+    a re-implementation may walk (bounded) inner work lists in a `while` of its own."""
+    out = {}
+
+    def visit(node, enclosing):
+        for child in ast.iter_child_nodes(node):
+            if isinstance(child, (ast.FunctionDef, ast.AsyncFunctionDef, ast.Lambda)):
+                visit(child, [])
+            elif isinstance(child, (ast.For, ast.While)):
+                here = child.lineno if isinstance(child, ast.For) else _counted_line(child)
+                if isinstance(child, ast.While):
+                    for hdr in enclosing:
+                        out.setdefault(hdr, set()).add(here)
+                visit(child, enclosing + [here])
+            else:
+                visit(child, enclosing)
+    visit(tree, [])
+    return out
+
+
 def _collect_code(code, acc):
     acc.append(code)
     for c in code.co_consts:
@@ -66,8 +97,13 @@ def _on_line(code, line):
     if pr is not None and line in pr:
         st['probe_hits'][pr[line]] = st['probe_hits'].get(pr[line], 0) + 1
         return None
+    rs = st['resets'].get(code)
+    is_reset = rs is not None and line in rs
+    if is_reset and st['limit'] is not None:
+        for inner in rs[line]:          # a new iteration of an enclosing loop: nested loops start afresh
+            st['counts'].pop((code, inner), None)
     if wl is None or line not in wl or st['limit'] is None:
-        return mon.DISABLE if (wl is None or line not in wl) else None
+        return mon.DISABLE if ((wl is None or line not in wl) and not is_reset) else None
     key = (code, line)
     c = st['counts'].get(key, 0) + 1
     st['counts'][key] = c
@@ -99,6 +135,7 @@ def install(pkg_dir):
         return
     st['pkg_dir'] = pkg_dir
     per_file = {}
+    per_file_resets = {}
     for fn in sorted(os.listdir(pkg_dir)):
         if not fn.endswith('.py'):
             continue
@@ -108,6 +145,7 @@ def install(pkg_dir):
         tree = ast.parse(src)
         lines = _while_lines_of(tree)
         per_file[path] = lines
+        per_file_resets[path] = _reset_points_of(tree)
     mon.use_tool_id(TOOL, 'kv-loopguard')
     mon.register_callback(TOOL, mon.events.LINE, _on_line)
     mon.register_callback(TOOL, mon.events.PY_START, _on_start)
@@ -132,6 +170,8 @@ def install(pkg_dir):
             if not mine:
                 continue
             st['lines'][code] = mine
+            rs = per_file_resets.get(path) or {}
+            st['resets'][code] = {h: frozenset(v) for h, v in rs.items() if min(span) <= h <= max(span) and v & mine}
             st['names'][code] = os.path.basename(f) + ':' + code.co_name
             mon.set_local_events(TOOL, code, mon.events.LINE | mon.events.PY_START)
             n_armed += 1
